@@ -168,7 +168,7 @@ int SimulateTms9900::set_reg(const char *reg_string, uint32_t value)
 
   if (index == -1)
   {
-    for (int n = 0; n < 9; n++)
+    for (int n = 0; n < 7; n++)
     {
       if (strcasecmp(reg_string, flags[n]) == 0)
       {
